@@ -1156,7 +1156,20 @@ where
     // (see Section 2.2), this section MUST be copied as well."
     match xfr_state {
         XFRState::AXFRInit | XFRState::IXFRInit => {
-            if !msg.is_answer(answer.for_slice()) {
+            // The first response has to repeat the question. Only an error
+            // response that consists of nothing but a header may leave it
+            // out. A message without a question can be a late or duplicated
+            // subsequent message of an earlier transfer that carried our
+            // (reused) ID.
+            let counts = answer.header_counts();
+            let header_only_error = answer.header().rcode()
+                != Rcode::NOERROR
+                && counts.ancount() == 0
+                && counts.nscount() == 0
+                && counts.arcount() == 0;
+            if (counts.qdcount() == 0 && !header_only_error)
+                || !msg.is_answer(answer.for_slice())
+            {
                 xfr_state = XFRState::Error;
                 // If we detect an error, then keep the stream open. We are
                 // likely out of sync with respect to the sender.
